@@ -82,6 +82,20 @@ impl<'a> Model<'a> {
 //@stub base/src/new_empty.rs Model::move_sheet
     ensures r.is_ok() ==> final(self).log() == old(self).log().push(Call::MoveSheet(sheet_index, new_index)), r.is_err() ==> *final(self) == *old(self)
 //@end
+    // per-cell link and own style as state functions of the engine
+    pub uninterp spec fn link_at(&self, sheet: u32, row: i32, column: i32) -> Option<Link>;
+    pub uninterp spec fn own_style_at(&self, sheet: u32, row: i32, column: i32) -> Option<Style>;
+//@stub base/src/links.rs Model::get_cell_link
+    ensures r.is_ok() ==> r.unwrap() == self.link_at(sheet, row, column)
+//@end
+//@stub base/src/model.rs Model::get_cell_style_or_none
+    ensures r.is_ok() ==> r.unwrap() == self.own_style_at(sheet, row, column)
+//@end
+//@stub base/src/model.rs Model::get_style_for_cell
+//@end
+//@stub base/src/model.rs Model::set_user_input
+    ensures r.is_err() ==> *final(self) == *old(self)
+//@end
     // column widths / row heights as a state function of the engine (A-setget frame: a set changes only its own line — proved for the
     // Worksheet setters in units cols / rows, whole-view contracts)
     pub uninterp spec fn width(&self, sheet: u32, column: i32) -> f64;
@@ -249,6 +263,21 @@ impl<'a> UserModel<'a> {
         assert(recorded(old(self), self, Diff::MoveColumns { sheet, column, column_count, delta: new_delta }));
 //@end
 
+// typing into a cell: the link and the cell's own style that go into the recorded diffs are the ones the cell had BEFORE the engine
+// processed the input (so undo puts back the pre-input link and style)
+//@fn base/src/user_model/common.rs UserModel::set_user_input_with_link_diffs
+//@spec
+    ensures
+        r.is_ok() ==> final(diff_list)@.len() >= old(diff_list)@.len() && final(diff_list)@.subrange(0, old(diff_list)@.len() as int) =~= old(diff_list)@,
+        r.is_ok() ==> forall|k: int| old(diff_list)@.len() <= k < final(diff_list)@.len() ==> match #[trigger] final(diff_list)@[k] {
+            Diff::SetCellStyle { sheet: s, row: r0, column: c, old_value, new_value } => s == sheet && r0 == row && c == column && *old_value == old(self).model.own_style_at(sheet, row, column),
+            Diff::SetCellLink { sheet: s, row: r0, column: c, old_value, new_value } => s == sheet && r0 == row && c == column && *old_value == old(self).model.link_at(sheet, row, column)
+                && *new_value == final(self).model.link_at(sheet, row, column),
+            _ => false,
+        },
+        final(self).history == old(self).history, final(self).send_queue == old(self).send_queue,
+//@rewrite `) -> Result<(), String> {` => `) -> (r: Result<(), String>) {`
+//@end
 // sheet visibility / deletion / move: the recorded diff names the sheet, carries the state (or the whole sheet) as it was BEFORE the call,
 // and the engine call is the redo of that diff
 //@fn base/src/user_model/common.rs UserModel::unhide_sheet
